@@ -195,7 +195,7 @@ static void prime_heap(void)
 
 /* SZV_STACK_PRIME=<w>: before every case, fill a large region of the stack below main's frame with the 32-bit word w, so that
  * an uninitialised local of the library reads as w (a float or int of that pattern) -- the stack counterpart of SZV_HEAP_PRIME */
-static void __attribute__((noinline)) prime_stack(void)
+void __attribute__((noinline)) prime_stack(void)
 {
 	const char* e = getenv("SZV_STACK_PRIME");
 	if (!e) return;
